@@ -84,10 +84,11 @@ def check(ctx: Ctx) -> list[RuleResult]:
     shw = _probes(ctx, repo.func(f"{H}.StoredHw._setup_discovery_cmds"))
     dhwz = _probes(ctx, repo.func(f"{Z}.DhwZone._setup_discovery_cmds"))
     want = [
-        ("appliance control", "000C", "00" + dev_role.getattr("APP"), sysb + dhwz),
-        ("hot-water valve", "000C", "00" + dev_role.getattr("HTG"), sysb + dhwz),
-        ("heating valve", "000C", "01" + dev_role.getattr("HTG"), sysb + dhwz),
-        ("DHW sensor", "000C", "00" + dev_role.getattr("DHW"), shw + dhwz),
+        # system-level probes: a DHW zone only exists once one of these was answered, so its own probes do not count here
+        ("appliance control", "000C", "00" + dev_role.getattr("APP"), sysb + shw),
+        ("hot-water valve", "000C", "00" + dev_role.getattr("HTG"), sysb + shw),
+        ("heating valve", "000C", "01" + dev_role.getattr("HTG"), sysb + shw),
+        ("DHW sensor", "000C", "00" + dev_role.getattr("DHW"), sysb + shw),
         ("zones with a sensor", "0005", "00" + SEN, mz),
     ] + [(f"zones of class {zon_role.getitem(z)}", "0005", "00" + z, mz) for z in heat_zones]
     for what, code, pay, have in want:
